@@ -226,6 +226,38 @@ pub fn run(ctx: &mut Ctx) {
         ctx.add(&format!("stretch_cases_{}", type_name(TYPED_CODES[(idx % 40) as usize])), 1);
         check_bytes(ctx, "stretch", idx, &b);
     }
+    // overstated counts over minimal entries: the header announces more entries than the bytes hold
+    if ctx.family_active("overcount") {
+        let q_root: &[u8] = &[0, 0, 1, 0, 1];
+        let q_a: &[u8] = &[1, b'a', 0, 0, 16, 0, 1];
+        let rr_a: &[u8] = &[0, 0, 1, 0, 1, 0, 0, 0, 5, 0, 4, 9, 9, 9, 9];
+        let rr_empty: &[u8] = &[1, b'b', 0, 0, 16, 0, 1, 0, 0, 0, 0, 0, 0];
+        let mut idx = 0u64;
+        for sec in 0..4usize {
+            for present in 0..=3usize {
+                for over in [1usize, 2, 3, 5, 255, 65535] {
+                    for variant in 0..2usize {
+                        for tail in [0usize, 1, 4] {
+                            idx += 1;
+                            if !ctx.take("overcount", idx) {
+                                continue;
+                            }
+                            let mut b = vec![0x12, 0x34, 0x80, 0, 0, 0, 0, 0, 0, 0, 0, 0];
+                            let entry: &[u8] = match (sec, variant) { (0, 0) => q_root, (0, _) => q_a, (_, 0) => rr_a, _ => rr_empty };
+                            for _ in 0..present {
+                                b.extend_from_slice(entry);
+                            }
+                            b.extend_from_slice(&entry[..tail.min(entry.len() - 1)]);
+                            let announced = (present + over).min(65535) as u16;
+                            b[4 + 2 * sec..6 + 2 * sec].copy_from_slice(&announced.to_be_bytes());
+                            ctx.add("overstated_count_cases", 1);
+                            check_bytes(ctx, "overcount", idx, &b);
+                        }
+                    }
+                }
+            }
+        }
+    }
     // C01 corpus: valid messages, every cut, every field perturbation
     let per_type = if ctx.slow_tool { 1 } else { tier.pick(6u64, 40u64) };
     for ci in 0..42 * per_type {
